@@ -8,11 +8,29 @@ HERE = os.path.dirname(os.path.dirname(os.path.abspath(__file__)))
 
 TECH = "bounded symbolic execution of the real Python functions (symx proxies + z3): numeric inputs stay SMT variables, every branch is a solver query, every obligation a z3 validity query; sat answers replayed natively"
 
+GEN_NOTE = ("Trusted: z3; the symx proxy engine (each explored path's solver witness is also run natively through the real code and "
+            "compared); Python floats modelled as exact reals; structural inputs enumerated only inside the stated bound "
+            "(evidence.coverage.bounds / outside_bounds).")
+
 CLAIMED = {
     # id: (technique detail, level text, level note, design_ref)
+    "C01": ("symbolic execution of the real solve_sat with the four budgets (solution_limit, luby_factor, max_conflicts, max_restarts) as unbounded SMT Ints over an enumerated/seeded CNF space; z3 branch queries; returned models checked against the CNF",
+            "Bounded model checking: for every CNF and assumption list in the stated space and EVERY value of the four tuning parameters (symbolic, unbounded), every returned assignment satisfies all clauses and assumptions and enumerated models are pairwise distinct; includes a pass with reduce_db's threshold lowered to 2 (in-memory copy of the function).",
+            GEN_NOTE + " CNF structure is enumerated (exhaustive up to 3 clauses over 3 variables, sampled/named beyond), not symbolic.",
+            "DESIGN.md 4/C01"),
+    "C02": ("symbolic execution of the real solve_sat with unbounded symbolic budgets; z3 as independent SAT oracle for verdicts and for entailment of every learned clause (SOLVOR_VERIF hook trace); luby() executed symbolically against the reference sequence",
+            "Bounded model checking: INFEASIBLE only if z3 says unsat, a model whenever z3 says sat unless the path condition forces a budget to be exhausted (MAX_ITER justified by the path condition), every learned clause implied by formula + earlier blocking clauses, every path returns within the wall budget (hangs replayed natively), luby(i) equals the reference for i<=512.",
+            GEN_NOTE + " Hook: solvor/sat.py reports learned clauses / ticks when SOLVOR_VERIF=1.",
+            "DESIGN.md 4/C02"),
+    "C08": ("symbolic execution of the real max_flow with every capacity an unbounded non-negative SMT Int per topology; obligations (capacity, conservation, value = min cut over all 2^(n-2) cuts) discharged by z3",
+            "Bounded model checking: for every topology in the bound (all 4-node graphs with <=4 arcs + named 6-7 node family) and EVERY capacity vector, the returned flow is feasible and its value equals the minimum cut.",
+            GEN_NOTE, "DESIGN.md 4/C08"),
+    "C10": ("symbolic execution of the real solve_hungarian with every matrix entry an unbounded SMT Int/Real; optimality as explicit conjunction over all matchings, discharged by z3 per path",
+            "Bounded model checking: for every shape up to 3x3 (+1x4, 4x1; thorough to 4x4), both directions and EVERY matrix of that shape (unbounded ints and reals), the assignment is a matching of size min(r,c), the objective is the sum of chosen entries and no matching is better.",
+            GEN_NOTE, "DESIGN.md 4/C10"),
     "C20": ("inductive step from an arbitrary valid state, symbolic execution of UnionFind/FenwickTree methods with z3 (parents, ranks, array contents, operands symbolic)",
             "Bounded model checking of the real methods: for every n in the bound, every state satisfying the representation invariant, every operand and every value, z3 proves RI is preserved and the answer equals the abstract partition / array answer; base case (constructors) proved for the same n. One inductive step covers histories of any length.",
-            "Trusted: z3; the symx proxy engine (validated per path by running the solver's witness through the real code natively and comparing); Python floats modelled as exact reals; n bounded (UnionFind <=4 quick/<=6 thorough, Fenwick <=8/<=16).",
+            GEN_NOTE + " n bounded (UnionFind <=4 quick/<=6 thorough, Fenwick <=8/<=16).",
             "DESIGN.md 4/C20"),
 }
 
